@@ -32,13 +32,13 @@ PLANS = {
     "C07": plan(shards(15, 240)),
     "C08": plan(shards(20, 300)),
     "C09": plan(shards(20, 300), tool("miri.sh", ["c09"], 3000), tool("memcheck.sh", ["C09"], 3000)),
-    "C10": plan(shards(30, 480, mode="script", n=12), shards(20, 300, mode="faults", n=3),
-                shards(12, 120, mode="shutdown-race", n=1)),
+    "C10": plan(shards(30, 480, mode="script", n=10), shards(20, 300, mode="faults", n=3),
+                shards(12, 120, mode="shutdown-race", n=1), shards(20, 240, mode="net", n=2)),
     "C11": plan(shards(20, 360, mode="two", n=10), shards(20, 360, mode="three", n=3), shards(20, 300, mode="net", n=3)),
     "C12": plan(shards(20, 300), tool("miri.sh", ["c12"], 3000), tool("tsan.sh", ["C12"], 3000)),
     "C13": plan(shards(15, 240)),
     "C14": plan(shards(20, 300), tool("tsan.sh", ["C14"], 3000)),
-    "C15": plan(shards(12, 180)),
+    "C15": plan(shards(12, 180, n=13), shards(12, 180, mode="live", n=3)),
     "C16": plan(shards(15, 240)),
     "C17": plan(shards(12, 180)),
     "C18": plan(shards(15, 240)),
@@ -84,7 +84,7 @@ RULES = {
     "C10": "script mode: every sequence of length <=3 (quick) / <=4 over 15 adversarial frames, against the initiator and against the "
            "acceptor with 4 accept decisions (exhaustive per run when all shards finish; evidence counts the sequences done). faults "
            "mode: generated pairs x every frame index x {close replica, sync off, actor shutdown, cut, cut inside frame} x side. "
-           "shutdown-race mode: 2..6 clients issuing requests while the actor is shut down. non-trivial = every sequence / pair with >=3 frames; distinct = hash.",
+           "net mode (workload shared with C11): a complete docs node on loopback against a hand-driven peer; requests for a document the node holds but does not sync are declined and must leave that document without stored sync peers and without entries. shutdown-race mode: 2..6 clients issuing requests while the actor is shut down. non-trivial = every sequence / pair with >=3 frames; distinct = hash.",
     "C11": "case = random schedule (<=6 dials, <=14 quick / 24 thorough events) over two or three real live actors on a fresh document: "
            "dial decisions (new neighbour / sync report / direct join), request delivery or loss, decline reply delivered or lost, both "
            "session ends finishing Ok or with each error class in any order, ending with a probe dial at quiescence. "
@@ -92,7 +92,7 @@ RULES = {
            "net mode: a complete docs node (engine, router, real net::handle_connection) on loopback against a hand-driven peer: 4..12 steps of "
            "request / hold / continue / kill a session, end a declined connection orderly, abruptly, by reset or by stop, pauses; judged at the "
            "boundary: a request accepted while an earlier accepted session is held and then still answers, more end-of-session events than "
-           "accepted sessions, a decline after every accepted session was reported finished. non-trivial = a request declined while a session is held.",
+           "accepted sessions, a decline after every accepted session was reported finished, a request for a document not being synced not declined as NotFound. non-trivial = a request declined while a session is held.",
     "C12": "case = 5..25 steps on one store actor: subscribe / unsubscribe / drop receiver (<=4 subscribers), policy change, local insert / "
            "delete, single remote entry (direct or as message; valid, superseded, forged), multi-entry messages with forged entries, "
            "sessions with a local write between two messages. non-trivial = subscriber churn happened and events were produced; distinct = hash of the trace.",
@@ -103,7 +103,7 @@ RULES = {
            "2..4 concurrent clients x 2..5 requests on a 4-thread runtime, checked for linearizability per document. non-trivial = "
            "sequential: some request had to be refused; concurrent: operations of different clients overlapped; distinct = hash of the history.",
     "C15": "case kinds: matcher (policy x all keys up to length 3 over the alphabet + filter-derived keys), persistence (set/get/reopen over "
-           "two documents and a missing one), filter text round-trips and arbitrary strings, event flags from a real actor. "
+           "two documents and a missing one), filter text round-trips and arbitrary strings, event flags from a real actor; live mode: 4..16 steps of policy change / remote insert with its own content hash (sender has or lacks the content) / neighbour announcement against a real live actor (H7), non-trivial there = a history with selected and excluded entries. "
            "non-trivial = policy that selects some keys and not others / >=2 steps / filter round-tripped; distinct = hash.",
     "C16": "case = store with 3..5 documents from a pool of byte-neighbour ids, filled with entries, policies and peers; 2..8 steps of "
            "removal (1/3 attempted while open), re-creation, writes. non-trivial = at least one removal succeeded; distinct = hash of the trace.",
